@@ -868,6 +868,7 @@ class Tr:
                 lname = self.mname(self.m, tn, mname)
         _, name, fgs, selfkind, params, ret, body, attrs = it
         self.cur_generics = [g for g, _ in gs]
+        self.cur_generic_types = {g: self.rtype(t) for g, t in gs}
         gtxt = "".join(f" {{{g} : Nat}}" for g, _ in gs)
         rret = self.rtype(ret, selfty)
         env = {}
@@ -909,7 +910,8 @@ class Tr:
         self.out.append("")
 
 
-EXT_TYPES = {}   # filled by Deps description below
+# external (dependency-crate) types -> Lean types of the hand-written dependency models (SynthVerif/Src/Deps.lean)
+EXT_TYPES = {"HistoryBuffer": "HistBuf", "Hertz": "Deps.Hertz", "DirectForm1": "Deps.DirectForm1", "Coefficients": "Deps.Coefficients"}
 
 def frac_of_literal(body):
     b = body.replace("_", "")
@@ -1282,7 +1284,7 @@ class Ctx:
             if v is not None:
                 return [], lean_ident(n), v[0]
             if n in self.generics:
-                return [], n, "u32"
+                return [], n, getattr(self.tr, "cur_generic_types", {}).get(n, "u32")
             mod, it = self.tr.find("consts", n)
             if it is not None:
                 return [], self.tr.qual(mod, n), Tr(self.tr.crate, mod).rtype(it[2])
@@ -1608,6 +1610,9 @@ class Ctx:
 # dependency crates (heapless, biquad, midi-convert): modelled by hand in SynthVerif/Src/Deps.lean; the translator only
 # needs to know the Lean names and types of the handful of entry points the crate calls
 
+def ext_name(t):
+    return t[1] if isinstance(t, tuple) and t[0] == "ext" else None
+
 def deps_call(ctx, tn, fn, args, targs, exp):
     if tn == "Vec" and fn == "new":
         if isinstance(exp, tuple) and exp[0] == "hvec":
@@ -1615,22 +1620,77 @@ def deps_call(ctx, tn, fn, args, targs, exp):
         if targs and len(targs) == 2:
             return [], "[]", ("hvec", ctx.tr.rtype(targs[0]), targs[1][1] if targs[1][0] == "expr" else targs[1])
         raise Unsupported("Vec::new() of unknown capacity")
+    if tn == "HistoryBuffer" and fn == "new":
+        if ext_name(exp) == "HistoryBuffer":
+            cap = exp[2][1]
+            cap = cap[1] if isinstance(cap, tuple) and cap[0] == "expr" else cap
+            return [], f"(HistBuf.new {ctx.tr.const_arg(cap)})", exp
+        raise Unsupported("HistoryBuffer::new() of unknown capacity")
+    if tn == "Coefficients" and fn == "from_params":
+        # Coefficients::<f32>::from_params(Type::X, fs, f0, q) -> Result<Coefficients, Errors>
+        ty = args[0]
+        if ty[0] != "path" or ty[1][-2:-1] != ["Type"]: raise Unsupported("from_params with a computed filter type")
+        atoms, lines = [], []
+        for a, t in zip(args[1:], [("ext", "Hertz", []), ("ext", "Hertz", []), "f32"]):
+            al, aa, _ = ctx.expr(a, t); lines += al; atoms.append(aa)
+        return lines, f"(Deps.from_params Deps.FilterType.{ty[1][-1]} {' '.join(atoms)})", ("result", ("ext", "Coefficients", []))
+    if tn == "DirectForm1" and fn == "new":
+        al, aa, _ = ctx.expr(args[0], ("ext", "Coefficients", []))
+        return al, f"(Deps.DirectForm1.new {aa})", ("ext", "DirectForm1", [])
     return None
 
 def deps_conv(ctx, atom, src, dst):
     return None
 
 def deps_mcall(ctx, recv, name, args, targs, exp):
+    # iterator chain `buff.oldest_ordered().take(n).sum::<f32>()`
+    if name == "sum" and recv[0] == "mcall" and recv[2] == "take" and recv[1][0] == "mcall" and recv[1][2] == "oldest_ordered":
+        bl, ba, bt = ctx.expr(recv[1][1], None)
+        if ext_name(bt) != "HistoryBuffer": return None
+        nl, na, _ = ctx.expr(recv[3][0], "usize")
+        return bl + nl, f"(Deps.fsum ((HistBuf.oldestOrdered {ba}).take {na}))", "f32"
+    if name == "unwrap" and not args:
+        rl, ra, rt = ctx.expr(recv, None)
+        if isinstance(rt, tuple) and rt[0] in ("result", "option"):
+            t = ctx.fresh()
+            return rl + [f"let {t} ← {ra}"], t, rt[1]
+        return None
+    if name == "hz" and not args:
+        rl, ra, rt = ctx.expr(recv, "f32")
+        if rt == "f32":
+            t = ctx.fresh()
+            return rl + [f"let {t} ← Deps.hz {ra}"], t, ("ext", "Hertz", [])
+        if ext_name(rt) == "Hertz":
+            return rl, f"{ra}.v", "f32"
+    if name == "capacity" and not args:
+        rl, ra, rt = ctx.expr(recv, None)
+        if ext_name(rt) == "HistoryBuffer":
+            return rl, f"(HistBuf.capacity {ra})", "usize"
+    if name == "run" and len(args) == 1:
+        try:
+            root, path, t = ctx.place(recv)
+        except Unsupported:
+            return None
+        if ext_name(t) == "DirectForm1":
+            if getattr(ctx, "inner", False): raise Unsupported("mutating call inside an expression-position if/match")
+            al, aa, _ = ctx.expr(args[0], "f32")
+            cur = ".".join([lean_ident(root)] + path)
+            t1, t2 = ctx.fresh(), ctx.fresh()
+            return al + [f"let ({t1}, {t2}) := Deps.DirectForm1.run {cur} {aa}"] + ctx.store(root, path, t1), t2, "f32"
     return None
 
 def deps_mcall_stmt(ctx, root, path, t, name, args):
+    cur = ".".join([lean_ident(root)] + path)
     if isinstance(t, tuple) and t[0] == "hvec" and name == "push":
         al, aa, _ = ctx.expr(args[0], t[1])
         cap = ctx.tr.const_arg(t[2])
-        cur = ".".join([lean_ident(root)] + path)
         return al + ctx.store(root, path, f"(hvPush {cap} {cur} {aa})")
-    if isinstance(t, tuple) and t[0] in ("slice", "hvec", "array") and name == "iter":
-        return None
+    if ext_name(t) == "HistoryBuffer" and name == "write":
+        al, aa, _ = ctx.expr(args[0], "f32")
+        return al + ctx.store(root, path, f"(HistBuf.write {cur} {aa})")
+    if ext_name(t) == "DirectForm1" and name == "update_coefficients":
+        al, aa, _ = ctx.expr(args[0], ("ext", "Coefficients", []))
+        return al + ctx.store(root, path, f"(Deps.DirectForm1.update_coefficients {cur} {aa})")
     return None
 
 
@@ -1650,7 +1710,7 @@ def for_each_rewrite(e):
 
 # ---------------------------------------------------------------------------------------------------------------------
 
-MODULES = ["utils", "phase_accumulator", "lfo", "adsr", "quantizer"]
+MODULES = ["utils", "phase_accumulator", "lfo", "adsr", "quantizer", "ribbon_controller", "glide_processor"]
 
 def main():
     src = sys.argv[1] if len(sys.argv) > 1 else "/repo/src"
